@@ -186,6 +186,14 @@ func c18FailureCap(rate time.Duration) int {
 	return c18MaxFailures
 }
 
+func c18Cancellable(withCause bool) (context.Context, context.CancelFunc) {
+	if !withCause {
+		return context.WithCancel(context.Background())
+	}
+	ctx, cancel := context.WithCancelCause(context.Background())
+	return ctx, func() { cancel(errors.New("c18: the cancellation's cause, not the context's error")) }
+}
+
 func (m *c18Machine) signal() {
 	select {
 	case m.wake <- struct{}{}:
@@ -861,16 +869,19 @@ func c18Run(t *rapid.T, st *vkit.Stats) {
 		kinds = append(kinds, "deadline", "deadline")
 	}
 	m.ctxKind = rapid.SampledFrom(kinds).Draw(t, "ctx")
+	// a cancellation may carry a cause (WithCancelCause / WithDeadlineCause): what the retry loop returns is the
+	// context's error all the same
+	withCause := rapid.IntRange(0, 2).Draw(t, "withCause") == 0
 	dlSlots := int64(-1)
 	switch m.ctxKind {
 	case "nil":
 	case "background":
 		m.ctx = context.Background()
 	case "cancel":
-		m.ctx, m.cancel = context.WithCancel(context.Background())
+		m.ctx, m.cancel = c18Cancellable(withCause)
 		m.obsCtx = m.ctx
 	case "cancelled":
-		m.ctx, m.cancel = context.WithCancel(context.Background())
+		m.ctx, m.cancel = c18Cancellable(withCause)
 		m.obsCtx = m.ctx
 		m.cancel()
 		m.cancelAt = time.Now()
@@ -879,7 +890,11 @@ func c18Run(t *rapid.T, st *vkit.Stats) {
 		hi := int64(1) << uint(rapid.IntRange(0, 14).Draw(t, "deadlineMag"))
 		dlSlots = rapid.Int64Range(0, hi).Draw(t, "deadlineSlots")
 		m.deadline = time.Now().Add(time.Duration(dlSlots)*m.rate + m.rate/2)
-		m.ctx, m.cancel = context.WithDeadline(context.Background(), m.deadline)
+		if withCause {
+			m.ctx, m.cancel = context.WithDeadlineCause(context.Background(), m.deadline, errors.New("c18: the deadline's cause, not the context's error"))
+		} else {
+			m.ctx, m.cancel = context.WithDeadline(context.Background(), m.deadline)
+		}
 		m.obsCtx = m.ctx
 	}
 	if dlSlots >= 0 {
